@@ -70,7 +70,7 @@ def directed_cases():
 def build_cases(ctx: Ctx):
     rng = random.Random(ctx.seed * 7919 + 101)
     cases = directed_cases()
-    n_random = 22 if ctx.quick else 260       # (a level-1 compile of a 3-4 qubit circuit costs 5-15 CPU seconds)
+    n_random = 22 if ctx.quick else 140       # (a level-1 compile of a 3-4 qubit circuit costs 5-15 CPU seconds)
     for i in range(n_random):
         if ctx.quick:
             n = rng.choice([1, 2, 2, 3, 3, 3, 3, 4])
